@@ -47,7 +47,7 @@ CHECKS = {
     technique='Coq proof (name denotation lemmas, restore lemmas) + differential correspondence + brute-force group oracle'),
  'C06': dict(
     text='Theorems (Coq, all frame heaps): lookup finds the innermost binding and skips non-binding frames; define/set/let/fn obey the environment model; a closure call '
-         'runs in a frame whose parent is the captured one (lexical, not dynamic) and restores the caller frame; let is sequential; error cases. '
+         'runs in a frame whose parent is the captured one (lexical, not dynamic) and restores the caller frame; let is sequential; error cases; no frame ever binds a name twice (FrameInv.v: whole evaluator by induction on fuel, and every history of API operations). '
          'Left-to-right single evaluation is the definition of eval_args and is tied to the code by the differential check against a reference interpreter.' + DIFF,
     technique='Coq proof (environment-model laws) + differential correspondence + reference interpreter oracle'),
  'C07': dict(
@@ -124,7 +124,7 @@ CHECKS = {
     technique='Coq proof (resolve idempotence, pipeline equality on pass fixed points) + subprocess path comparison + differential correspondence'),
  'C17': dict(
     text='Theorems (Coq, induction over the whole evaluator, one lemma per operator): every completed evaluation leaves the current frame, scope, group and index stack as they '
-         'were and only extends the frame heap; the API entry (Wal.eval with keyword arguments) restores shadowed globals: a keyword binding of an existing global is written, the evaluation proper runs in that state, and the old value is read again afterwards whatever the evaluation did; a fresh name is appended and removed (KwProofs.v; that no second binding of a fresh name remains is stated under distinct keys of the global frame); Wal.run starts from a fresh state.' + DIFF,
+         'were and only extends the frame heap; the API entry (Wal.eval with keyword arguments) restores shadowed globals: a keyword binding of an existing global is written, the evaluation proper runs in that state, and the old value is read again afterwards whatever the evaluation did; a fresh name is appended and removed (KwProofs.v; with the frame invariant of FrameInv.v the fresh name is unbound afterwards in every reachable state); Wal.run starts from a fresh state.' + DIFF,
     technique='Coq proof (balanced-context invariant by induction on evaluator fuel) + differential correspondence'),
  'C18': dict(
     text='Theorems (Coq): time cell with 0..9 fractional digits -> integer ns exactly, for numerals of any length (csv_time); decimal value inverts the numeral printer; '
@@ -144,9 +144,12 @@ CHECKS = {
  'C20': dict(
     text='Theorems (Coq): BEGIN/END/conditional classification is a partition keeping source order; the emitted program is (do defines BEGIN...), main loop (only with conditional '
          'statements), END...; each collected variable defined once; the main loop (whenever #t (when (&& c...) action)...) visits every index from the current one to the last '
-         'once, ascending, statements in source order, and restores the index. PARTIAL: the Earley parser (precedence, associativity) is not modelled: decided by the '
+         'once, ascending, statements in source order, and restores the index. The expression rules of the grammar are modelled as a lexer and a parser with one function per level (WawkParse.v) and '
+         'every expression tree (numbers, symbols, strings, calls, !, the 12 binary operators, any depth) written with parentheses only where the levels require them parses back to that tree: binary '
+         'operators group left to right, * / over + -, comparisons below, && over || (WawkParseProofs.v); the model parser is tied to the Earley parser by the differential check on generated expression texts. '
+         'PARTIAL: the statement syntax of the Earley parser is not modelled: decided by the '
          'differential check against an AWK-style reference evaluation; -o by the reader round trip.' + DIFF,
-    technique='Coq proof (emit structure, main-loop refinement) + differential correspondence + AWK-style reference evaluator'),
+    technique='Coq proof (emit structure, main-loop refinement, expression-parser round trip) + differential correspondence + AWK-style reference evaluator'),
 }
 for _k, _v in CHECKS.items():
     _v.setdefault('design', 'DESIGN.md §6 ' + _k)
